@@ -142,10 +142,12 @@ func (lineParser *LineParser) parseMarkup() (*ParseResult, error) {
 		}
 	}
 
+	text := builder.String()
+
 	if !characterAttributeIsPresent {
-		match := endOfCharacterMarker.FindStringIndex(lineParser.input)
+		match := endOfCharacterMarker.FindStringIndex(text)
 		if match != nil {
-			characterName := lineParser.input[:match[0]]
+			characterName := text[:match[0]]
 			nameValue := Value{
 				StringValue: characterName,
 				ValueType:   ValueTypeString,
@@ -154,7 +156,7 @@ func (lineParser *LineParser) parseMarkup() (*ParseResult, error) {
 				Name:           characterAttribute,
 				Position:       0,
 				SourcePosition: 0,
-				Length:         match[1],
+				Length:         utf8.RuneCountInString(text[:match[1]]),
 				Properties: map[string]Value{
 					characterAttributeNameProperty: nameValue,
 				},
@@ -165,7 +167,6 @@ func (lineParser *LineParser) parseMarkup() (*ParseResult, error) {
 	}
 
 	// The text is trimmed, so the attributes have to be moved (and possibly shortened) accordingly.
-	text := builder.String()
 	trimmedText := strings.TrimSpace(text)
 	trimmedLength := utf8.RuneCountInString(trimmedText)
 	leadingTrim := utf8.RuneCountInString(text) - utf8.RuneCountInString(strings.TrimLeftFunc(text, unicode.IsSpace))
